@@ -12,7 +12,8 @@ EXPL = ("R18.1 each guard / stopwatch / timer operation has the effect set of th
         "matter. R18.2 sibling agreement: the borrowed and the owned guard have identical effect sets under the field map timer<->"
         "*timer; both duration representations agree; the switch to the shared representation moves the exclusive value (take < "
         "Arc::new(Mutex::new(_)) < *self = Shared). R18.3 starts read the injected TimeSource (instant / system_time), never the "
-        "ambient clock; get_time_source precedence explicit > thread-local > runtime > system is a dominance chain. Composition over "
+        "ambient clock; R18.4 the stopwatch's own Option<Instant> field is only ever set to None (spans are measured by guards from the guard's "
+        "own start; a stored start would let close() report time no kept span accounts for); get_time_source precedence explicit > thread-local > runtime > system is a dominance chain. Composition over "
         "all histories is by induction on paper (DESIGN §4 C18); clock values are runtime and not decided.")
 MQ = "metrique"
 TS = "metrique_timesource"
@@ -259,6 +260,35 @@ def run(ctx):
                   "switching to the shared representation does not move the accumulated exclusive duration into the shared cell (spans measured so far would be lost)")
         setd = [i for i in b.live_blocks() for s in b.stmts(i) if s["k"] in ("assign", "setdiscr") and s["lhs"]["l"] == 1 and any(e[0] == "deref" for e in s["lhs"].get("p", []))]
         ctx.check(bool(setd), "R18.2", fnkey(b) + "#self-becomes-shared", loc(b), "the stopwatch does not switch itself to the shared representation")
+    # ------------------------------------------------------------------ R18.4 a stopwatch remembers no start of its own
+    # the stopwatch's own Option<Instant> field is only ever cleared: every span is measured by a guard from the guard's start; a stored
+    # start would make close() report time that no completed, kept span accounts for
+    sw_adt = T + "Stopwatch"
+    start_fields = {n for n, r in field_roles(F, sw_adt).items() if r == "start"}
+    n4 = 0
+    for b in F.all_bodies(MQ):
+        if "::test" in b.path:
+            continue
+        pr_ = None
+        for i in b.live_blocks():
+            for s_ in b.stmts(i):
+                vals = []
+                if s_["k"] == "assign" and s_["lhs"].get("p") and s_["lhs"]["p"][-1][0] == "f" and s_["lhs"]["p"][-1][2] in start_fields and s_["lhs"]["p"][-1][3] == sw_adt:
+                    vals = [s_["rv"]]
+                elif s_["k"] == "assign" and s_["rv"]["k"] == "agg" and s_["rv"].get("adt") == sw_adt:
+                    vals = [{"k": "use", "op": o} for f_, o in zip(s_["rv"].get("fields") or [], s_["rv"]["ops"]) if f_ in start_fields]
+                for rv in vals:
+                    n4 += 1
+                    pr_ = pr_ or Prov(b)
+                    is_none = rv["k"] == "agg" and rv.get("variant") == "None"
+                    if not is_none and rv["k"] == "use":
+                        k_ = op_const(rv["op"])
+                        oo = {x for x in pr_.operand(rv["op"]) if x[0] != "via"}
+                        is_none = (k_ is not None and "None" in str(k_)) or (bool(oo) and all(x[0] == "agg" and x[2] == "None" for x in oo))
+                    ctx.check(is_none, "R18.4", fnkey(b) + "#stopwatch-start-only-cleared", loc(b, i),
+                              "the stopwatch's own start instant is set to something other than None: when the only span is discarded (or before any "
+                              "span completes) close() would report the time since that instant although no completed, kept span accounts for it")
+    ctx.floor("R18.4", "stores to the stopwatch's own start field (constructor + clear)", n4, 1)
     # ------------------------------------------------------------------ R18.3 time source
     lib = [b for b in F.all_bodies(MQ) if b.path.startswith(T) or b.path.startswith("<" + T)]
     lib = [b for b in lib if "::test::" not in b.path]
